@@ -353,6 +353,8 @@ class Scan:
     def _call(self, e, st, env, local):
         f = e.func
         args = list(e.args) + [k.value for k in e.keywords]
+        if isinstance(f, ast.Name) and f.id in ("super", "globals", "locals", "exec", "eval"):
+            raise Shape(f"{self.cls.name}: {f.id}() at line {_line(e)}")
         # hasattr / getattr / setattr / delattr / vars on self
         if isinstance(f, ast.Name) and f.id in ("hasattr", "getattr", "setattr", "delattr", "vars") \
                 and e.args and _is_self(e.args[0]):
@@ -394,6 +396,9 @@ class Scan:
                     self.param_writes.setdefault(r + "." + f.attr + "()", []).append(list(self.guards))
                 else:
                     self.inplace.add(r)
+            g = _root_name(f.value)
+            if g is not None and g not in local and g != "self":
+                self.inplace.add("<global> " + g)
         # method called directly on a constructor parameter
         if isinstance(f, ast.Attribute) and _self_attr(f.value) in self.params:
             self.param_calls.add(f"{_self_attr(f.value)}.{f.attr}")
@@ -447,6 +452,12 @@ class Scan:
                     self.param_writes.setdefault(r + how, []).append(list(self.guards))
                 else:
                     self.inplace.add(r)
+            elif any(_is_self(x) for x in ast.walk(t.value)):
+                raise Shape(f"{self.cls.name}: store through `{_u(t.value)[:40]}` at line {_line(t)}")
+            else:
+                g = _root_name(t.value)
+                if g is not None and g not in local:
+                    self.inplace.add("<global> " + g)
             return
         raise Shape(f"assignment target {_u(t)} at line {_line(t)}")
 
@@ -627,9 +638,16 @@ class Scan:
             env.pop(s.name, None)
             self._closure(s.body, set(st), dict(env), local | _local_names(s))
             return st
-        if isinstance(s, (ast.Pass, ast.Break, ast.Continue, ast.Import, ast.ImportFrom, ast.Global, ast.Nonlocal)):
+        if isinstance(s, (ast.Pass, ast.Break, ast.Continue, ast.Import, ast.ImportFrom)):
             return st
         raise Shape(f"{self.cls.name}: statement {type(s).__name__} at line {_line(s)}")
+
+
+def _root_name(n):
+    """the plain name at the root of an attribute / subscript chain, else None"""
+    while isinstance(n, (ast.Attribute, ast.Subscript)):
+        n = n.value
+    return n.id if isinstance(n, ast.Name) else None
 
 
 def _local_args(fn):
